@@ -11,6 +11,7 @@ func init() {
 		Thorough:   all("./..."),
 		Run: func(c *Ctx) {
 			c.ruleLazyIndex("R-LAZY-INDEX")
+			c.ruleLazyPassthrough("R-LAZY-PASSTHROUGH")
 		},
 	})
 }
